@@ -40,6 +40,11 @@ type gateCase struct {
 	ReplayKind string   `json:"replay_kind"`
 	Op         string   `json:"op"`
 	DTypes     []string `json:"dtypes"`
+	// Spare: the input list is a sub-slice of a longer array whose hidden elements are other tensors
+	Spare bool `json:"spare,omitempty"`
+	// Prev: an earlier request gated by the same operator object (its outcome is ignored)
+	Prev    []string `json:"prev,omitempty"`
+	HasPrev bool     `json:"has_prev,omitempty"`
 }
 
 func (g *gateCase) run() (v *hx.Violation) {
@@ -55,7 +60,30 @@ func (g *gateCase) run() (v *hx.Violation) {
 	}
 	min, max := op.GetMinInputs(), op.GetMaxInputs()
 	tc := op.GetInputTypeConstraints()
+	if g.HasPrev {
+		func() {
+			defer func() { recover() }()
+			pin := make([]tensor.Tensor, len(g.Prev))
+			for i, d := range g.Prev {
+				if d != "nil" {
+					dt, _ := ref.DTFromName(d)
+					pin[i] = hx.ToG(ref.Distinct(dt, []int{3}))
+				}
+			}
+			op.ValidateInputs(pin)
+		}()
+	}
 	in := make([]tensor.Tensor, len(g.DTypes))
+	if g.Spare {
+		backing := make([]tensor.Tensor, len(g.DTypes)+4)
+		for i := range backing {
+			backing[i] = hx.ToG(ref.Distinct(ref.F32, []int{1}))
+		}
+		in = backing[:len(g.DTypes)]
+		for i := range in {
+			in[i] = nil
+		}
+	}
 	snaps := make([]hx.Snap, len(in))
 	for i, d := range g.DTypes {
 		if d == "nil" {
@@ -479,7 +507,7 @@ var nonRegisteredOnnxOps = []string{"Abs ", " Abs", "abs", "ABS", "", "Identity"
 
 func checkC15(c *hx.Checker) {
 	c.Rule = "names from opset13.GetOpNames() (must be exactly the registered set); per operator: every input count 0..max+2 (Concat 0..5) x dtype placement: full product of the 14 dtypes over all positions when max<=2, else every homogeneous row and every single- and two-position deviation from every homogeneous allowed row x nil at every position; " +
-		"unknown names: 120 non-registered ONNX operator names, case/space variants, empty string; lookup independence: for 22 (operator, attribute set A, attribute set B) specs ALL interleavings of 2 lookups (20) and of 3 lookups (1680) of <Get, Init, Apply>, each Apply compared with its isolated result. " +
+		"every homogeneous list additionally as a sub-slice of a longer array (spare capacity holding other tensors) and as the second request gated by one operator object after a longer / shorter / over-long / wrongly typed / empty first request; unknown names: 120 non-registered ONNX operator names, case/space variants, empty string; lookup independence: for 22 (operator, attribute set A, attribute set B) specs ALL interleavings of 2 lookups (20) and of 3 lookups (1680) of <Get, Init, Apply>, each Apply compared with its isolated result. " +
 		"states = distinct (operator, attribute-thread progress) configurations visited; transitions = Get/Init/Apply steps executed. non-trivial = every gate case with >= 1 input and every interleaving"
 	c.Assumptions = []string{"the allowed dtypes per position are the operator's own GetInputTypeConstraints (the property is about the gate enforcing its declaration before computing)",
 		"a nil at a *required* position is not an ONNX-expressible request: only 'no panic' is asserted there"}
@@ -581,10 +609,60 @@ func checkC15(c *hx.Checker) {
 			}
 		}
 	}
+	// the same lists (homogeneous rows of every length) as sub-slices with spare capacity, and as the second request
+	// gated by one operator object after a longer / shorter / over-long / wrongly typed first request
+	nPlain := len(cases)
+	for i := 0; i < nPlain; i++ {
+		g := cases[i]
+		homogeneous := true
+		for _, d := range g.DTypes {
+			if d != g.DTypes[0] && d != "nil" {
+				homogeneous = false
+			}
+		}
+		if !homogeneous || len(g.DTypes) == 0 {
+			if len(g.DTypes) != 0 {
+				continue
+			}
+		}
+		sp := g
+		sp.Spare = true
+		cases = append(cases, sp)
+		op, err := opset13.GetOperator(g.Op)
+		if err != nil {
+			continue
+		}
+		max := op.GetMaxInputs()
+		if g.Op == "Concat" {
+			max = 4
+		}
+		d0 := "float32"
+		if len(g.DTypes) > 0 && g.DTypes[0] != "nil" {
+			d0 = g.DTypes[0]
+		}
+		row := func(n int, d string) []string {
+			r := make([]string, n)
+			for k := range r {
+				r[k] = d
+			}
+			return r
+		}
+		for _, prev := range [][]string{row(max, d0), row(op.GetMinInputs(), d0), row(max+1, d0), row(max, "string"), row(max+3, d0), {}} {
+			h := g
+			h.Prev, h.HasPrev = prev, true
+			cases = append(cases, h)
+		}
+	}
 	var transitions int64
 	c.ParallelFor(len(cases), func(i int) {
 		g := cases[i]
 		id := fmt.Sprintf("gate/%s/%v", g.Op, g.DTypes)
+		if g.Spare {
+			id += "/spare-capacity"
+		}
+		if g.HasPrev {
+			id += fmt.Sprintf("/after%v", g.Prev)
+		}
 		c.Case(hx.CaseInfo{ID: id, Tags: []string{"op=" + g.Op, "gate", fmt.Sprintf("n=%d", len(g.DTypes))}, NonTrivial: len(g.DTypes) > 0, Sample: g}, func() *hx.Violation { return g.run() })
 	})
 	transitions += int64(len(cases))
